@@ -41,7 +41,7 @@ def use_repo():
     import hed  # noqa
     got = Path(hed.__file__).resolve().parent.parent
     if got != REPO.resolve():
-        raise RuntimeError(f"hed imported from {got}, expected {REPO}")
+        raise HarnessError(f"hed imported from {got}, expected {REPO}")
 
 
 # ------------------------------------------------------------------------------------------ build
@@ -140,12 +140,12 @@ class Model:
                 break
             time.sleep(1)
         else:
-            raise RuntimeError("model driver not built")
+            raise HarnessError("model driver not built")
         data = "\n".join(json.dumps(r, ensure_ascii=True) for r in requests) + "\n"
         p = subprocess.run([str(self.exe)], input=data, capture_output=True, text=True, timeout=timeout)
         lines = [l for l in p.stdout.splitlines() if l.strip()]
         if p.returncode != 0 or len(lines) != len(requests):
-            raise RuntimeError(f"driver failed rc={p.returncode} answers={len(lines)}/{len(requests)} "
+            raise HarnessError(f"driver failed rc={p.returncode} answers={len(lines)}/{len(requests)} "
                                f"stderr={p.stderr[-500:]}")
         self.calls += len(requests)
         return [json.loads(l) for l in lines]
@@ -161,6 +161,10 @@ def load_findings():
 
 
 # ------------------------------------------------------------------------------------------ context
+
+class HarnessError(RuntimeError):
+    """a failure of our own machinery (model driver, import path), never of the implementation"""
+
 
 class Timeout(Exception):
     pass
